@@ -144,6 +144,9 @@ pub struct ConnObs {
     pub rx: Vec<u8>,
     pub rx_at_checkpoint: Option<Vec<u8>>,
     pub sent_at_checkpoint: usize,
+    /// bytes received when, after every peer had finished politely (half-close), nothing could happen
+    /// any more - the listener still open, the clock not moved
+    pub rx_len_after_release: Option<usize>,
     pub connected: bool,
     pub accepted: Option<(u64, u64)>,
     pub srv_first_io: Option<(u64, u64)>,
@@ -443,6 +446,15 @@ pub fn run_l(case: &LCase) -> (SimEnd, crate::sched::SimStats, LObs) {
             }
         }
         env.quiesce();
+        {
+            let w = net.lock();
+            let mut o = out2.lock().unwrap();
+            for i in 0..n {
+                if let Some(id) = ids[i] {
+                    o.conns[i].rx_len_after_release = Some(w.conns[id].client_rx.len());
+                }
+            }
+        }
         // ---- let the server come to its own end where it is supposed to have one
         let budget = c.idle_timeout * 1000 * 3 + 3000;
         let t0 = net.lock().now;
@@ -596,6 +608,15 @@ pub fn judge_l(case: &LCase, end: &SimEnd, o: &LObs) -> LVerdict {
                 "panic",
                 format!("a server thread panicked: {}", t.chars().take(300).collect::<String>()),
             ));
+            if case.conns.len() + case.clients.len() > 1 {
+                // a panicking server thread poisons what the threads share (or takes the process
+                // down): the other connections pay for it
+                v.push(viol(
+                    "C13",
+                    "panic",
+                    format!("a server thread panicked while {} connections were being served: {}", case.conns.len() + case.clients.len(), t.chars().take(300).collect::<String>()),
+                ));
+            }
             return LVerdict { violations: v, inconclusive: false, probes };
         }
         SimEnd::Deadlock(t) => {
@@ -823,7 +844,9 @@ pub fn judge_l(case: &LCase, end: &SimEnd, o: &LObs) -> LVerdict {
             },
             dispatches: if single_attr && !faulted { Some(o.rec_calls.clone()) } else { None },
             socket: true,
-            faulted: faulted || lc.peer == Peer::Faulty,
+            // (an upgraded handler of shape V5 passes a read that was interrupted by a signal on as an
+            // error: the connection may end there, what it processed until then stays a prefix)
+            faulted: faulted || lc.peer == Peer::Faulty || (case.cfg.upgrade_mode == 5 && lc.srv_read_plan.contains(&0)),
             upgrade_mode: case.cfg.upgrade_mode,
         };
         let verdict = check_stream(&case.cfg, &model, &obs);
@@ -873,6 +896,33 @@ pub fn judge_l(case: &LCase, end: &SimEnd, o: &LObs) -> LVerdict {
                 v.push(x);
             }
         }
+        // liveness after the release: every peer has finished politely, the listener is still open, no
+        // time has passed. What a connection only receives once the environment starts to force the end
+        // (clock moved to the next deadline, listener closed) it was kept waiting for although nothing
+        // stood in the way any more.
+        if lc.peer == Peer::Healthy && !faulted && !case.steps.iter().any(|s| matches!(s, Step::SetStop)) {
+            if let Some(k) = co.rx_len_after_release {
+                if co.rx.len() > k && co.accepted.is_some() {
+                    let (before, _) = split_nul(&co.rx[..k]);
+                    let (all, _) = split_nul(&co.rx);
+                    if all.len() > before.len() {
+                        for p in ["C14", "C01"] {
+                            v.push(viol(
+                                p,
+                                "served-only-when-the-server-was-forced-to-end",
+                                format!(
+                                    "connection {} had {} of its {} replies when every peer had finished and nothing could happen any more (listener open, {} slots); the rest only came once the environment moved the clock or closed the listener",
+                                    i,
+                                    before.len(),
+                                    all.len(),
+                                    case.max
+                                ),
+                            ));
+                        }
+                    }
+                }
+            }
+        }
         // liveness at the checkpoint, while misbehaving peers were still stalled
         if lc.peer == Peer::Healthy && !faulted {
             if let Some(rx) = &co.rx_at_checkpoint {
@@ -916,6 +966,44 @@ pub fn judge_l(case: &LCase, end: &SimEnd, o: &LObs) -> LVerdict {
                                         sent.len(),
                                         in_service_at_release,
                                         case.max
+                                    ),
+                                ));
+                            }
+                            // a peer that sent malformed or truncated input, or that does not read, is
+                            // connected: it is that peer's presence this connection is paying for
+                            let misbehaving_other_now = case.conns.iter().zip(o.conns.iter()).enumerate().any(|(j, (lcj, cj))| {
+                                j != i && cj.connected && {
+                                    let mj = model_stream(&case.cfg, &cj.sent[..cj.sent_at_checkpoint.min(cj.sent.len())]);
+                                    lcj.peer != Peer::Healthy
+                                        || cj.faulted_by_script
+                                        || mj.has_malformed
+                                        || mj.alts.iter().all(|a| matches!(&a.end, crate::model::End::Open { tail } if !tail.is_empty()))
+                                }
+                            });
+                            if multi && misbehaving_other_now && !m2.has_malformed && !m2.has_gray {
+                                v.push(viol(
+                                    "C06",
+                                    "neighbour-affected",
+                                    format!(
+                                        "connection {} is well-behaved and had sent {} bytes of complete well-formed requests, yet at quiescence, while a peer with malformed / truncated input or one that does not read was connected, {}",
+                                        i,
+                                        sent.len(),
+                                        x.detail.chars().take(200).collect::<String>()
+                                    ),
+                                ));
+                            }
+                            if stranded || multi {
+                                // whatever keeps it waiting: nothing can happen any more without new
+                                // input, the request is complete, the connection open, slots are free
+                                v.push(viol(
+                                    "C01",
+                                    "unanswered-while-open",
+                                    format!(
+                                        "connection {} had sent {} bytes of complete requests; at quiescence, with the connection open and fewer than max_worker_threads={} connections in service, {}",
+                                        i,
+                                        sent.len(),
+                                        case.max,
+                                        x.detail
                                     ),
                                 ));
                             }
@@ -1889,6 +1977,57 @@ pub fn c05_l_spaces(tier: Tier) -> Vec<Space> {
     }]
 }
 
+/// a connection that carries oneway calls only is accepted while the pool is saturated, then the stop
+/// flag is raised, then the connections in service end: the queued one is served during the drain and
+/// still gets no reply bytes
+pub fn c04_stop_spaces(tier: Tier) -> Vec<Space> {
+    use crate::alphabet::{Flags, Kind};
+    let cfg = SvcCfg::basic();
+    let n = if tier == Tier::Quick { 600 } else { 20_000 };
+    vec![Space {
+        name: "L.oneway.queued-at-stop",
+        size: n,
+        exhaustive: false,
+        gen: Box::new(move |_idx, seed| {
+            let mut rng = Rng::new(seed);
+            let max = rng.range(1, 2) as usize;
+            let mut conns = Vec::new();
+            let mut steps = Vec::new();
+            for i in 0..max {
+                let s = token_stream(&cfg, &[Kind(crate::alphabet::Base::Echo, Flags::NONE)], i);
+                conns.push(LConn::healthy(&s));
+                steps.push(Step::Connect(i));
+                steps.push(Step::Send(i, s.len()));
+            }
+            steps.push(Step::Quiesce);
+            let q = max;
+            let kinds: Vec<Kind> = (0..rng.range(1, 3))
+                .map(|_| Kind(*rng.pick(crate::alphabet::ALL_BASES), if rng.chance(1, 5) { Flags { more: Some(true), oneway: Some(true), upgrade: None } } else { Flags::ONEWAY }))
+                .collect();
+            let s = token_stream(&cfg, &kinds, q);
+            conns.push(LConn::healthy(&s));
+            steps.push(Step::Connect(q));
+            steps.push(Step::Send(q, s.len()));
+            if rng.chance(1, 2) {
+                steps.push(Step::Quiesce);
+            }
+            steps.push(Step::SetStop);
+            if rng.chance(2, 3) {
+                steps.push(Step::Sleep(rng.range(50, 400)));
+            }
+            for i in 0..max {
+                steps.push(Step::HalfClose(i));
+            }
+            let mut lc = LCase::single(&cfg, conns[0].clone(), steps, SchedCfg::random(&mut rng, 1));
+            lc.conns = conns;
+            lc.initial = 1;
+            lc.max = max;
+            lc.stop_flag = true;
+            Case::L(lc)
+        }),
+    }]
+}
+
 /// one connection that moves more than a megabyte in total (many medium-sized requests)
 pub fn megabyte_conn(cfg: &SvcCfg, rng: &mut Rng, idx: usize) -> LConn {
     let a = cfg.scripted[0].clone();
@@ -1918,6 +2057,45 @@ pub fn c01_spaces(tier: Tier) -> Vec<Space> {
     }
     let seeds: u64 = if tier == Tier::Quick { 4 } else { 12 };
     let mut spaces = Vec::new();
+    // the connection under test is not alone: 1..3 other connections are accepted right before or
+    // after it (no pause in between) and stay open without saying anything; far below the worker limit
+    {
+        let (cfg, alpha) = (cfg.clone(), alpha.clone());
+        let n = if tier == Tier::Quick { 2_000 } else { 60_000 };
+        spaces.push(Space {
+            name: "L.seq.beside-open-connections",
+            size: n,
+            exhaustive: false,
+            gen: Box::new(move |_idx, seed| {
+                let mut rng = Rng::new(seed);
+                let others = rng.range(1, 3) as usize;
+                let talker_at = rng.usize(others + 1);
+                let kinds: Vec<_> = (0..rng.range(1, 5)).map(|_| *rng.pick(&alpha)).collect();
+                let mut conns = Vec::new();
+                let mut steps = Vec::new();
+                let mut talker = 0;
+                for i in 0..=others {
+                    if i == talker_at {
+                        talker = i;
+                        conns.push(LConn::healthy(&token_stream(&cfg, &kinds, i)));
+                    } else {
+                        conns.push(LConn::healthy(&[]));
+                    }
+                    steps.push(Step::Connect(i));
+                    if rng.chance(1, 4) {
+                        steps.push(Step::Yield(rng.range(1, 3) as u8));
+                    }
+                }
+                let len = conns[talker].stream.to_vec().len();
+                steps.push(Step::Send(talker, len));
+                let mut lc = LCase::single(&cfg, conns[0].clone(), steps, SchedCfg::random(&mut rng, 1));
+                lc.conns = conns;
+                lc.initial = rng.range(1, 2) as usize;
+                lc.max = *rng.pick(&[8usize, 16, 100]);
+                Case::L(lc)
+            }),
+        });
+    }
     {
         let (cfg, alpha) = (cfg.clone(), alpha.clone());
         spaces.push(Space {
@@ -2096,6 +2274,52 @@ pub fn c02_spaces(tier: Tier) -> Vec<Space> {
                 if rng.chance(1, 3) {
                     conn.srv_read_plan = (0..rng.range(1, 40)).map(|_| rng.range(1, 9000) as u16).collect();
                 }
+                Case::L(LCase::single(&cfg, conn, steps, SchedCfg::random(&mut rng, 1)))
+            }),
+        });
+    }
+    // a signal interrupts a read of an upgraded handler that passes I/O errors on (V5) right after it
+    // has taken the bytes that came with the upgrade request: the connection may end, but what the
+    // handler processed stays a prefix of the stream (nothing twice)
+    {
+        let n = if tier == Tier::Quick { 1_500 } else { 50_000 };
+        spaces.push(Space {
+            name: "L.upgrade.interrupted",
+            size: n,
+            exhaustive: false,
+            gen: Box::new(move |_idx, seed| {
+                let mut rng = Rng::new(seed);
+                let mut cfg = SvcCfg::basic();
+                cfg.upgrade_mode = 5;
+                let mut s = crate::alphabet::frame(&crate::alphabet::upgrade_request(&cfg, rng.chance(1, 2), "up"));
+                let head = s.len();
+                let total = rng.range(20, 700) as usize;
+                let mut i = 0;
+                let mut payload = Vec::new();
+                while payload.len() < total {
+                    payload.extend_from_slice(format!("L{}-{}\n", i, "y".repeat(rng.range(0, 30) as usize)).as_bytes());
+                    i += 1;
+                }
+                s.extend_from_slice(&payload);
+                // the request and the first part of the payload in one segment, the rest later
+                let first = head + rng.range(1, payload.len() as u64) as usize;
+                let mut cuts = vec![first];
+                if rng.chance(1, 2) && first + 1 < s.len() {
+                    cuts.push(rng.range(first as u64 + 1, s.len() as u64 - 1) as usize);
+                }
+                let wait: Vec<bool> = (0..cuts.len() + 1).map(|_| rng.chance(2, 3)).collect();
+                let steps = cut_steps(0, s.len(), &cuts, &wait);
+                let mut conn = LConn::healthy(&s);
+                // reads: a few that take what is there, then an interrupted one, then more of the same
+                let mut plan: Vec<u16> = Vec::new();
+                for _ in 0..rng.range(1, 3) {
+                    plan.push(rng.range(200, 9000) as u16);
+                }
+                plan.push(0);
+                for _ in 0..rng.range(0, 6) {
+                    plan.push(if rng.chance(1, 4) { 0 } else { rng.range(1, 9000) as u16 });
+                }
+                conn.srv_read_plan = plan;
                 Case::L(LCase::single(&cfg, conn, steps, SchedCfg::random(&mut rng, 1)))
             }),
         });
@@ -2591,6 +2815,12 @@ pub fn c13_plan(tier: Tier) -> Plan {
                         steps.push(Step::Quiesce);
                     }
                 }
+                // now and then the stop flag is raised in the very moment the last connection arrives:
+                // it may not be accepted any more, but if it is, it is served like any other
+                let stop_now = rng.chance(1, 6);
+                if stop_now {
+                    steps.push(Step::SetStop);
+                }
                 let i = conns.len();
                 let kinds: Vec<_> = (0..rng.range(1, 3)).map(|_| *rng.pick(&red)).collect();
                 conns.push(LConn::healthy(&token_stream(&cfg, &kinds, i)));
@@ -2603,6 +2833,9 @@ pub fn c13_plan(tier: Tier) -> Plan {
                 if timed {
                     lc.idle_timeout = rng.range(1, 2);
                     lc.stop_flag = rng.chance(1, 2);
+                }
+                if stop_now {
+                    lc.stop_flag = true;
                 }
                 Case::L(lc)
             }),
@@ -2678,7 +2911,7 @@ pub fn c14_spaces(tier: Tier) -> Vec<Space> {
     let pools = [(1usize, 1usize), (1, 2), (1, 3), (2, 2), (2, 3), (1, 4), (3, 4), (3, 2)];
     let seeds: u64 = if tier == Tier::Quick { 20 } else { 400 };
     let nconns = [2usize, 3, 4, 5, 6];
-    let size = pools.len() as u64 * nconns.len() as u64 * 5 * seeds;
+    let size = pools.len() as u64 * nconns.len() as u64 * 6 * seeds;
     vec![Space {
         name: "L.pool.bursts",
         size,
@@ -2693,7 +2926,9 @@ pub fn c14_spaces(tier: Tier) -> Vec<Space> {
             // 0: all connect, then all send; 1: connect+send one by one without waiting;
             // 2: the same with a quiescence wait after each; 3: some connections end in between;
             // 4: as 1, but every second connection upgrades itself and keeps talking the upgraded protocol
-            let pattern = i % 5;
+            // 5: as 1, but all connections except the last one end in an error of the implementation
+            //    (the worker's error path), the last one must be served once the others are gone
+            let pattern = i % 6;
             let mut conns = Vec::new();
             let mut steps = Vec::new();
             let mut cfg = cfg.clone();
@@ -2706,6 +2941,9 @@ pub fn c14_spaces(tier: Tier) -> Vec<Space> {
                     s.extend(crate::alphabet::frame(&crate::alphabet::upgrade_request(&cfg, c % 4 == 0, &format!("c{}-up", c))));
                     s.extend_from_slice(b"a\nEnd\n");
                 }
+                if pattern == 5 && c + 1 < n {
+                    s = token_stream(&cfg, &[Kind(Base::HandlerErr, Flags::NONE)], c);
+                }
                 conns.push(LConn::healthy(&s));
             }
             match pattern {
@@ -2717,7 +2955,7 @@ pub fn c14_spaces(tier: Tier) -> Vec<Space> {
                         steps.push(Step::Send(c, 10_000));
                     }
                 }
-                1 | 4 => {
+                1 | 4 | 5 => {
                     for c in 0..n {
                         steps.push(Step::Connect(c));
                         steps.push(Step::Send(c, 10_000));
